@@ -207,6 +207,24 @@ def one_instance(ctx, m, tag, mult, in_dtype, all_perms):
         if n >= 3 and nonconst:
             ctx.nontrivial(m, t)
         ctx.seen_max("max_tour_length", want)
+    # history: the caller keeps using (and overwriting) its own buffer; the
+    # instance documents that the matrix "will be copied"
+    arr[:, :] = arr.T.copy() if not sym else (arr + (1 - np.eye(
+        n, dtype=arr.dtype)).astype(arr.dtype))
+    ctx.count("input_buffer_overwritten_after_construction")
+    if any(int(stored[i, j]) != m[i][j] for i in range(n) for j in range(n)):
+        ctx.violation("instance-aliases-the-callers-matrix",
+                      f"overwriting the array passed to Instance changed the "
+                      f"stored matrix (input dtype {arr.dtype}, storage "
+                      f"{inst.dtype})", case0)
+    else:
+        t = tours[-1]
+        x = space.create()
+        x[:] = t
+        if obj.evaluate(x) != sum(m[t[k - 1]][t[k]] for k in range(n)):
+            ctx.violation("instance-aliases-the-callers-matrix",
+                          "tour length changed after the caller's array was "
+                          "overwritten", dict(case0, kind="tour", tour=t))
     if int(rng.integers(40)) == 0:
         ctx.sample({"n": n, "tag": tag, "dtype": str(inst.dtype),
                     "matrix_first_rows": m[:3], "lb": lb, "ub": ub,
